@@ -84,7 +84,52 @@ pub fn with_capacity_family(n_max: usize) -> FamOut {
             return out;
         }
     }
-    out.samples.push(format!("with_capacity_and_hasher(usize::MAX, n, H) then n fresh inserts, n = 0..={n_max} (0..=160 for Const/SamePos), H in 5 hasher kinds + default hasher"));
+    // large tables: the smallest and the largest n of every bucket class up to 2^kmax buckets,
+    // requested at construction or by reserve on an empty cache
+    let kmax = if n_max > 1000 { 18 } else { 14 };
+    for hk in [HK::Spread, HK::Sip] {
+        for k in 5..=kmax {
+            let b: usize = 1 << k;
+            for n in [b / 2 * 7 / 8 + 1, b * 7 / 8] {
+                for by_reserve in [false, true] {
+                    reg_reset();
+                    let mut c: Cache = if by_reserve {
+                        let mut c: Cache = LruCache::with_hasher(usize::MAX, TBuild { kind: hk });
+                        c.reserve(n);
+                        c
+                    } else {
+                        LruCache::with_capacity_and_hasher(usize::MAX, n, TBuild { kind: hk })
+                    };
+                    let cap0 = c.capacity();
+                    out.cases += 1;
+                    if cap0 < n {
+                        out.viol.push(("C13.with_capacity", format!("a cache asked to hold {n} entries ({}) has capacity {cap0}", if by_reserve { "reserve" } else { "with_capacity" })));
+                    }
+                    for i in 0..n {
+                        let _ = c.insert(TKey::new(1000 + i as u32, 0), TVal::new(0));
+                        out.evaluations += 1;
+                        if c.capacity() != cap0 {
+                            out.viol.push((
+                                "C13.with_capacity",
+                                format!(
+                                    "{} for {n} entries ({}): capacity changed from {cap0} to {} at fresh insertion #{} of {n}",
+                                    if by_reserve { "LruCache::with_hasher + reserve" } else { "LruCache::with_capacity_and_hasher" },
+                                    hk.name(),
+                                    c.capacity(),
+                                    i + 1
+                                ),
+                            ));
+                            break;
+                        }
+                    }
+                    if out.viol.len() > 8 {
+                        return out;
+                    }
+                }
+            }
+        }
+    }
+    out.samples.push(format!("with_capacity_and_hasher(usize::MAX, n, H) then n fresh inserts, n = 0..={n_max} (0..=160 for Const/SamePos), H in 5 hasher kinds + default hasher; smallest and largest n of every bucket class from 32 to 2^{kmax} buckets, by with_capacity and by reserve"));
     out
 }
 
